@@ -22,6 +22,9 @@ extern "C" __attribute__((used)) const char *__ubsan_default_options() {
     return "print_stacktrace=1:halt_on_error=1:exitcode=77";
 }
 
+#ifdef NIXSIM_COV
+extern "C" void __gcov_dump(void);
+#endif
 namespace sim {
 int run_special(World &w, const Plan &p, const std::string &dir);   // special.cpp
 bool lane_is_special(const std::string &lane);
@@ -135,7 +138,68 @@ static std::string san_summary(const std::string &err) {
     return s.substr(0, 700);
 }
 
+static int fork_once(const Plan &p, const std::string &dir, long idx, uint64_t seed, std::string &out_line, bool wipe);
+
+static std::string json_field(const std::string &j, const std::string &key) {
+    size_t p = j.find("\"" + key + "\":");
+    if (p == std::string::npos) return "";
+    p += key.size() + 3;
+    if (p < j.size() && j[p] == '"') { size_t e = j.find('"', p + 1); return j.substr(p + 1, e - p - 1); }
+    size_t e = j.find_first_of(",}", p);
+    return j.substr(p, e - p);
+}
+
+// A run of a twin plan is executed twice, each time in its own process: once as usual (observing after every step) and once without
+// reading anything back before the plan's final restart.  What the file shows after that restart must be the same: the tree a
+// reopened file exposes is a function of the history of operations, not of how much the program looked at it meanwhile (C02).
 static int fork_run(const Plan &p, const std::string &dir, long idx, uint64_t seed, std::string &out_line) {
+    if (!plan_is_twin(p)) return fork_once(p, dir, idx, seed, out_line, true);
+    int rc = fork_once(p, dir, idx, seed, out_line, false);
+    if (rc != 0 || json_field(out_line, "verdict") != "ok") { wipe_dir(dir); return rc; }
+    std::string obs_doc; bool have_a = disk_read_all(dir + "/final.observed.txt", obs_doc);
+    wipe_dir(dir);
+    if (!have_a) return rc;
+    std::string line_b;
+    g_blind_twin = true;
+    int rcb = fork_once(p, dir, idx, seed, line_b, false);
+    g_blind_twin = false;
+    std::string blind_doc; bool have_b = disk_read_all(dir + "/final.unobserved.txt", blind_doc);
+    wipe_dir(dir);
+    std::string vb = json_field(line_b, "verdict");
+    if (rcb == 0 && vb == "ok" && !have_b) return rc;      // the plan does not end with a restart (minimisation candidates): nothing to compare
+    if (rcb == 0 && vb == "ok" && have_b && blind_doc == obs_doc) {
+        size_t c = out_line.rfind("}}");
+        if (c != std::string::npos) out_line.insert(c, ",\"twin.unobserved_history_compared\":1");
+        return rc;
+    }
+    // the unobserved twin failed, crashed or shows something else
+    std::string detail, oracle = "C02.restart-equal", op = "reopen", ac = "unobserved-history";
+    long opi = (long) p.ops.size() - 1;
+    if (rcb != 0 || vb != "ok") {
+        detail = "the same plan executed without reading anything back before the final restart: " + json_field(line_b, "oracle") + " " + json_field(line_b, "detail");
+        std::string oi = json_field(line_b, "op_index"); if (!oi.empty()) opi = atol(oi.c_str());
+        std::string o2 = json_field(line_b, "op"); if (!o2.empty()) op = o2;
+    } else {
+        size_t i = 0, j = 0; int ln = 1; std::string l1, l2;
+        while (i < obs_doc.size() && j < blind_doc.size()) {
+            size_t e1 = obs_doc.find('\n', i), e2 = blind_doc.find('\n', j);
+            l1 = obs_doc.substr(i, e1 - i); l2 = blind_doc.substr(j, e2 - j);
+            if (l1 != l2 || e1 == std::string::npos || e2 == std::string::npos) break;
+            i = e1 + 1; j = e2 + 1; ln++;
+        }
+        detail = "after the final restart the file shows something else when the history was executed without reading anything back meanwhile: line " + std::to_string(ln) + " '" + l1.substr(0, 100) + "' (observed history) vs '" + l2.substr(0, 100) + "' (unobserved history)";
+    }
+    std::ostringstream o;
+    Hash shape; for (auto &x : p.ops) shape.u64((uint64_t) x.kind);
+    Hash hh; hh.str(obs_doc); hh.str(blind_doc); hh.str(line_b.substr(0, line_b.find(",\"hash\"")));
+    o << "{\"idx\":" << idx << ",\"seed\":" << seed << ",\"lane\":\"" << p.swarm.lane << "\",\"verdict\":\"viol\",\"oracle\":\"" << oracle << "\",\"op_index\":" << opi
+      << ",\"op\":\"" << op << "\",\"arg_class\":\"" << ac << "\",\"detail\":\"" << jesc(detail.substr(0, 600)) << "\",\"hash\":\"" << hex64(hh.h)
+      << "\",\"shape\":\"" << hex64(shape.h) << "\",\"nops\":" << p.ops.size() << ",\"final_state\":\"0\",\"nstates\":0,\"ntriples\":0,\"triples\":[],\"states\":[],\"cnt\":{\"twin.unobserved_history_differs\":1}}";
+    out_line = o.str();
+    return 1;
+}
+
+static int fork_once(const Plan &p, const std::string &dir, long idx, uint64_t seed, std::string &out_line, bool wipe) {
     int fds[2];
     if (pipe(fds) != 0) return -1;
     std::string errpath = dir + ".stderr";
@@ -150,6 +214,9 @@ static int fork_run(const Plan &p, const std::string &dir, long idx, uint64_t se
         res += "\n";
         size_t off = 0;
         while (off < res.size()) { ssize_t n = write(fds[1], res.data() + off, res.size() - off); if (n <= 0) break; off += (size_t) n; }
+#ifdef NIXSIM_COV
+        __gcov_dump();
+#endif
         _exit(0);
     }
     close(fds[1]);
@@ -183,7 +250,7 @@ static int fork_run(const Plan &p, const std::string &dir, long idx, uint64_t se
           << "\",\"shape\":\"" << hex64(shape.h) << "\",\"nops\":" << p.ops.size() << ",\"final_state\":\"0\",\"nstates\":0,\"ntriples\":0,\"triples\":[],\"states\":[],\"cnt\":{\"crashed_runs\":1}}";
         out_line = o.str();
     }
-    wipe_dir(dir);
+    if (wipe) wipe_dir(dir);
     syscall(SYS_unlink, errpath.c_str());
     return clean ? 0 : 1;
 }
@@ -200,6 +267,26 @@ int main(int argc, char **argv) {
     if (argc < 2) { fprintf(stderr, "usage: nixsim worker|plan|exec|lanes ...\n"); return 64; }
     std::string cmd = argv[1];
     if (cmd == "lanes") { for (auto &l : lane_list()) printf("%s %s\n", l.c_str(), lane_property(l)); return 0; }
+    if (cmd == "observe" && argc >= 3) {
+        // a separate reader process: open the file (ReadOnly unless "rw" is given), print what the public getters show
+        h5_quiet();
+        if (argc >= 5) { clock_set(atoll(argv[4])); clock_enable(true); }   // the reader lives in the same simulated time
+        try {
+            nix::File f = nix::File::open(argv[2], (argc >= 4 && !strcmp(argv[3], "rw")) ? nix::FileMode::ReadWrite : nix::FileMode::ReadOnly);
+            ObsOpts o; uint64_t g = 0;
+            Node d = observe(f, o, nullptr, &g);
+            f.close();
+            std::string r = render(d) + "HASH " + hex64(node_hash(d)) + "\n";
+            fputs(r.c_str(), stdout);
+        } catch (const std::exception &e) {
+            printf("THROWS %s\n", e.what());
+        }
+        fflush(stdout);
+#ifdef NIXSIM_COV
+        __gcov_dump();
+#endif
+        _exit(0);
+    }
     if (cmd == "plan" && argc >= 6) {
         std::string lane = argv[2]; uint64_t base = strtoull(argv[3], 0, 10); int tier = atoi(argv[4]); long idx = atol(argv[5]);
         Plan p = generate_plan(lane, run_seed(base, lane, idx), tier);
